@@ -136,7 +136,10 @@ PROPS = {
         "kani": [],
         "decided": ["line/column positions: position_for_offset == (line breaks before, bytes since the last one); get_char_column == characters since the last line break",
                     "Pre (pre-order / dfs, the iterator behind find_all and Visitor): new() starts with exactly preorder(subtree), every next() yields the head of the remaining pre-order and leaves its tail, None only when nothing is left -- every node of the subtree once, in order, never outside (relative to the T-cursor axioms)"],
-        "not_decided": ["children/parent/sibling/ancestor consistency of tree-sitter itself (FFI; assumed as T-cursor axioms)", "Post and Level traversals, calibrate_for_match, Node::ancestors / next_all / prev_all"],
+                    "Post (post-order): new() starts with exactly postorder(subtree); every next() yields the head of the remaining post-order and leaves its tail (trace_down / step_up under contract)",
+                    "Level (level-order): new() queues the start node; every next() is one breadth-first step (head yielded, its children appended behind the queue)",
+                    "Position::column / Node::start_pos / end_pos / range: line == line breaks before the byte offset, column == characters since the last one"],
+        "not_decided": ["children/parent/sibling/ancestor consistency of tree-sitter itself (FFI; assumed as T-cursor axioms)", "Post::calibrate_for_match (match_depth protocol)", "Node::ancestors / next_all / prev_all / children: `impl Iterator` built from std::iter::from_fn closures with captured mutable state -- outside this Verus; no contract within reach"],
         "assumptions": ["T-cursor: TreeCursor::goto_first_child / goto_next_sibling / goto_parent behave as on a finite tree whose children know their parent and index, and never leave the subtree the cursor was created on; node ids are unique"],
     },
     "C20": {
